@@ -150,6 +150,16 @@ VARIANTS = [
         needSendAppendEntries = False
 """)),
 
+    keep('P-isleader-helper-in-tick', (S, "        if self.__raftState == _RAFT_STATE.LEADER:\n\n            commitIdx = self.__raftCommitIndex", "        if self._isLeader():\n\n            commitIdx = self.__raftCommitIndex")),
+    keep('P-isleader-helper-in-handler', (S, "        if self.__raftState == _RAFT_STATE.LEADER:\n            if message['type'] == 'next_node_idx':", "        if self._isLeader():\n            if message['type'] == 'next_node_idx':")),
+    keep('P-logging-added', (S, "            self.__leaderCommitIndex = leaderCommitIndex = message['commit_index']\n", "            self.__leaderCommitIndex = leaderCommitIndex = message['commit_index']\n            logger.debug('append_entries from %s term %s', node, message['term'])\n"),
+         (S, "                    self.__votedForNodeId = node.id\n", "                    self.__votedForNodeId = node.id\n                    logger.debug('vote granted to %s', node)\n")),
+    keep('P-annotated-counter', (S, "            deadline = monotonicTime() - self.__conf.leaderFallbackTimeout\n            count = 1", "            deadline = monotonicTime() - self.__conf.leaderFallbackTimeout\n            count: int = 1")),
+    keep('P-status-extra-key', (S, "        status['log_len'] = len(self.__raftLog)\n", "        status['log_len'] = len(self.__raftLog)\n        status['first_log_idx'] = self.__raftLog[0][1]\n")),
+    keep('P-type-hints', (S, "    def __getPrevLogIndexTerm(self, nextNodeIndex):", "    def __getPrevLogIndexTerm(self, nextNodeIndex: int) -> tuple:"), (S, "    def __deleteEntriesFrom(self, fromIDx):", "    def __deleteEntriesFrom(self, fromIDx: int) -> None:")),
+    keep('P-new-readonly-method', (S, "    def _getTerm(self):\n        return self.__raftCurrentTerm\n", "    def _getTerm(self):\n        return self.__raftCurrentTerm\n\n    def _getVotedFor(self):\n        return self.__votedForNodeId\n")),
+    keep('P-send-wrapped-in-try', (S, "                    self.__transport.send(node, {\n                        'type': 'response_vote',\n                        'term': message['term'],\n                    })", "                    try:\n                        self.__transport.send(node, {\n                            'type': 'response_vote',\n                            'term': message['term'],\n                        })\n                    except Exception:\n                        logger.exception('failed to send vote')")),
+
     # ------------------------------------------------------------------ property-breaking variants
     brk('B-leader-append-no-plus1', ['C01'], 'R-leader-append-position', (S, "                idx, term = self.__getCurrentLogIndex() + 1, self.__raftCurrentTerm\n\n                if self.__conf.dynamicMembershipChange:", "                idx, term = self.__getCurrentLogIndex(), self.__raftCurrentTerm\n\n                if self.__conf.dynamicMembershipChange:")),
     brk('B-no-noop-on-election', ['C03'], 'R-leader-append-position', (S, "        self.__raftLog.add(_bchr(_COMMAND_TYPE.NO_OP), idx, term)\n        self.__noopIDx = idx", "        self.__noopIDx = idx")),
